@@ -9,12 +9,12 @@ require (
 	github.com/blevesearch/scorch_segment_api/v2 v2.3.10
 	github.com/blevesearch/vellum v1.1.0
 	github.com/blevesearch/zapx/v16 v16.0.0
+	github.com/golang/snappy v0.0.4
 )
 
 require (
 	github.com/bits-and-blooms/bitset v1.22.0 // indirect
 	github.com/blevesearch/mmap-go v1.0.4 // indirect
-	github.com/golang/snappy v0.0.4 // indirect
 	golang.org/x/sys v0.13.0 // indirect
 )
 
